@@ -33,6 +33,7 @@ class Runner:
 
         self.ezdxf = ezdxf
         self.doc = ezdxf.new(version)
+        self.other = ezdxf.new(version)  # a second, empty document for cross-document requests
         self.version = version
         self.ents: dict[int, object] = {}  # handle -> python entity (every entity the history created)
         self.order: list[int] = []
@@ -166,6 +167,16 @@ class Runner:
                     else:
                         new[h] = _Dead()
                 self.ents = new
+            elif kind == "foreign":
+                req = f"foreign|{op[1]}|{op[2]}"
+                e = self.ents[op[2]]
+                target = self.other.modelspace()
+                if op[1] == 0:    # layout.move_to_layout(entity, layout of another document)
+                    self.layout_of(hx(e.dxf.owner)).move_to_layout(e, target)
+                elif op[1] == 1:  # other_layout.add_entity(entity)
+                    target.add_entity(e)
+                else:             # entity.copy_to_layout(layout of another document)
+                    e.copy_to_layout(target)
             elif kind == "dmgowner":
                 req = f"dmgowner|{op[1]}|{'-' if op[2] is None else op[2]}"
                 self.ents[op[1]].dxf.owner = None if op[2] is None else "%X" % op[2]
@@ -330,7 +341,7 @@ class Runner:
                 lay = "EXC" + type(ex).__name__
             # a dangling owner makes get_layout() raise KeyError instead of returning None: shown as "?"
             layk = "-" if lay is None else ("?" if isinstance(lay, str) else str(hx(lay.block_record_handle)))
-            es.append(f"{h}:{'-' if owner is None else hx(owner)}:{int(indb)}:{layk}")
+            es.append(f"{h}:{'-' if owner is None else hx(owner)}:{int(indb)}:{layk}:{int(e.dxf.get('paperspace', 0))}")
         bl = sorted((doc.blocks.key(b.name), hx(b.block_record_handle)) for b in doc.blocks)
         bs = " ".join(f"{enc(n)}:{k}" for n, k in bl)
         ls = " ".join(f"{enc(n)}:{hx(doc.layouts.get(n).block_record_handle)}" for n in doc.layouts.names_in_taborder())
@@ -455,9 +466,16 @@ def gen_history(rng, length, misuse=False, with_reload=True):
         def owner_of(h):
             return hx(r.ents[h].dxf.owner)
 
-        if x < 0.22 or not hs:
+        if x < 0.20 or not hs:
             return ("add", rng.choice(ks))
+        if x < 0.22 and linked:
+            return ("foreign", rng.randrange(3), rng.choice(linked))
         if x < 0.27:
+            # prefer existing blocks, spelled in another case half of the time
+            existing = [b.name for b in r.doc.blocks if not b.name.startswith("*")]
+            if existing and rng.random() < 0.7:
+                n = rng.choice(existing)
+                return ("ins", rng.choice(ks), rng.choice([n, n.upper(), n.lower(), n.swapcase()]))
             return ("ins", rng.choice(ks), rng.choice(BLOCKS))
         if x < 0.35 and linked:
             h = rng.choice(linked)
@@ -480,7 +498,10 @@ def gen_history(rng, length, misuse=False, with_reload=True):
         if x < 0.76:
             return ("newblock", rng.choice(BLOCKS))
         if x < 0.80:
-            name = rng.choice(BLOCKS + ["*Model_Space", "*Paper_Space", "nope"])
+            existing = [b.name for b in r.doc.blocks if not b.name.startswith("*")]
+            name = rng.choice(BLOCKS + ["*Model_Space", "*Paper_Space", "nope"] + existing * 3)
+            if rng.random() < 0.3:
+                name = rng.choice([name.upper(), name.lower()])
             # unsafe deletion of a layout block destroys the document (documented misuse): only safe there
             return ("delblock", name, True if name.startswith("*") else rng.random() < 0.7)
         if x < 0.83:
